@@ -45,6 +45,11 @@ def stepLine (s : DrvSt) (toks : List String) : DrvSt × String :=
   | ["dend"] =>
     -- all tasks have finished: the latest invocation must have been executed (C16_debounce, fourth clause)
     (s, if s.dok && s.dlast == s.dcalls then "accept" else "reject dend")
+  | ["dburst", _, k] =>
+    -- a burst of concurrent calls, all made before any of their tasks started: every task makes its checks when the
+    -- burst's last call is the latest invocation, so exactly that one is executed (C16_debounce_exec_is_latest,
+    -- C16_debounce: never dropped)
+    (s, if k == "1" then "accept" else "reject dburst")
   | "sync" :: _ => ({ s with sync := {} }, "ok")
   | ["c", op, a] => let r := Hive.WPS.syncLine s.sync "c" op a; ({ s with sync := r.1 }, r.2)
   | ["q", op, a] => let r := Hive.WPS.syncLine s.sync "q" op a; ({ s with sync := r.1 }, r.2)
